@@ -233,7 +233,7 @@ def judge(chk: Check, alphabet: T.List[T.Dict[str, T.Any]], cases: T.List[T.Dict
     if not cases:
         return
     by_id = {c['id']: c for c in cases}
-    for part_no, part in enumerate(common.chunks(cases, 250000)):
+    for part_no, part in enumerate(common.size_chunks(cases, 250000, lambda c: {k: c[k] for k in KEEP})):
         with scratch('lang-') as d:
             tf = d / 'cases.json'
             tf.write_text(json.dumps({'alphabet': alphabet, 'cases': [{k: c[k] for k in KEEP} for c in part]}))
